@@ -191,9 +191,12 @@ func (n Note) Interval(o Note) Interval {
 }
 
 func (n Note) Transpose(i Interval) Note {
-	res := int8(n) + int8(i)
+	res := int16(n) + int16(i)
 	if res < 0 {
 		res = 0
+	}
+	if res > 127 {
+		res = 127
 	}
 	return Note(res)
 }
